@@ -12,7 +12,13 @@ voronoi_update) and _FPS:
              class increments it; rank space and sample space are not mixed;
  R-BOTHARMS  both arms of the full_fraction test define the new distances on all
              samples, non-active entries start from the current minimum, the entry
-             of the new selection is covered; the same running minimum follows;
+             of the new selection is covered; the same running minimum follows; the
+             first step as a whole (initialisation + first table update, explicit or
+             calibrated switching point) leaves the FPS distances to the initial pick;
+             the pick itself is the shared step of plain FPS (argmax with the selected
+             candidates excluded);
+ R-RUNMIN    score / get_distance hand out the current table, get_select_distance the
+             recorded selection distances;
  TAINT-TIME  values derived from time() reach only the calibrated switching point
              and, through it, the single branch between the two arms; no other
              attribute, buffer size, index or distance;
